@@ -133,6 +133,23 @@ Theorem C09_dry_matter_conservation_partial :
   (forall i, (i < oi_nrkom x)%nat -> cg (os_gorg s') i = growth_rate x i).
 Proof. exact dry_matter_lemma. Qed.
 
+(* Daily gross assimilation (crop.go:919-978, inside radia): (1) GPHOT >= 0, MAINT >= 0 and GTW = GPHOT + ASPOO >= 0 whenever the
+   light-response values DGAC, DGAO are >= 0, the day length is positive, TRREL and the potential maintenance are >= 0 and - on
+   days without radiation data - the sunshine duration handed to radia() is >= 0 (checked on every traced crop day);
+   (2) that hypothesis is needed: the missing-value marker -99.9 h gives GPHOT < 0.  This kernel is NOT tied bit for bit
+   (DGAC/DGAO are locals of the unexported radia); its hypothesis and conclusion are evaluated on traces *)
+Theorem C09_assimilation_nonneg_partial :
+  (forall (x : as_in (T:=R)),
+  0 <= as_dgac x -> 0 <= as_dgao x -> 0 < as_dle x -> 0 <= as_trrel x -> 0 <= as_maint_pot x ->
+  (as_rad x = 0 -> 0 <= as_sund x) ->
+  0 <= fst (assim_of x) /\ 0 <= snd (assim_of x) /\
+  (forall aspoo, 0 <= aspoo -> 0 <= fst (assim_of x) + aspoo))
+  /\
+  (let x := {| as_rad := 0; as_sund := -999 / 10; as_dle := 14; as_dgac := 400; as_dgao := 150; as_drc := 1;
+              as_trrel := 1; as_vswell := 1; as_maint_pot := 20; as_cold := false |} in
+  0 <= as_dgac x /\ 0 <= as_dgao x /\ 0 < as_dle x /\ 0 <= as_trrel x /\ 0 <= as_maint_pot x /\ fst (assim_of x) < 0).
+Proof. exact (conj assim_nonneg_lemma assim_negative_witness). Qed.
+
 (* non-vacuity: the shipped winter-wheat rows 1 and 2 are rows of shares *)
 Example C09b_nonvacuous : row_ok [(5, 1%nat); (5, 1%nat); (0, 0%nat); (0, 0%nat)]%Z = true /\ row_ok [(2, 1%nat); (6, 1%nat); (2, 1%nat); (0, 0%nat)]%Z = true.
 Proof. exact (conj eq_refl eq_refl). Qed.
@@ -144,3 +161,4 @@ Print Assumptions C09_gehob_negative_refuted.
 Print Assumptions C09_uptake_le_supply_partial.
 Print Assumptions C09_partition_conservation_partial.
 Print Assumptions C09_dry_matter_conservation_partial.
+Print Assumptions C09_assimilation_nonneg_partial.
